@@ -5,8 +5,7 @@
    (any list of thread ids, any length) and ANY number of publisher threads / messages.
    Level: proof, PARTIAL - the theorems are about the model; the controlled-scheduler runs of harness/c07.py
    validate the model against the real client and search for failing schedules (exploration, not proof).
-   Statements refuted by the faithful model keep their full form as a [Definition ..._full], a [_refuted]
-   witness and a [_partial] theorem with the explicit exclusion. *)
+   The three statements that the earlier code refuted (F-C07a, b, d) are full theorems for the fixed code (section 5). *)
 From PahoV Require Import Base.Prelude Codec.Mid Conc.Sched Conc.SchedLemmas Conc.MidGen Conc.Handoff Conc.Wake
   Conc.ConnFirst Conc.LockOrder.
 From PahoV Require Conc.LockGraph Conc.LockGraphSound Gen.GenLockGraph Conc.LockOrderGraph.
@@ -160,67 +159,26 @@ Proof. exact LockOrderGraph.gen_relation_is_model_relation. Qed.
 Print Assumptions C07_lock_order_of_source_is_model.
 
 (* ------------------------------------------------------------------ 5. publish() racing with reconnect() *)
-(* (a) CONNECT first - FULL STATEMENT, FALSE (finding F-C07a, same root as F-C10d) *)
-Definition C07_connect_first_full : Prop := connect_first_full.
-
-Theorem C07_connect_first_refuted :
-  wire (sched_run witness_a (init_reconnect 0 [1%nat])) = [(1, Connect 1); (2, Publish 0 0 1)] /\
-  wire_ok (wire (sched_run witness_a (init_reconnect 0 [1%nat]))) = false /\
-  sched_skipped witness_a (init_reconnect 0 [1%nat]) = O.
-Proof. exact connect_first_refuted. Qed.
-Print Assumptions C07_connect_first_refuted.
-
-Theorem C07_connect_first_full_is_false : ~ C07_connect_first_full.
-Proof. exact connect_first_full_false. Qed.
-Print Assumptions C07_connect_first_full_is_false.
-
-(* ... holds for every schedule that never has a publisher between its `_sock` test and its append while the
-   loop thread is between `_out_packet.clear()` and the append of CONNECT *)
-Theorem C07_connect_first_partial : forall m0 l0 pipe0 nmsgs s, in_send l0 = [] -> in_window_a l0 = false ->
-  safe_run race_a s (init m0 l0 pipe0 nmsgs) = true ->
+(* FULL statements (every schedule, any number of publishers, any starting point of the loop thread, no exclusion)
+   for the code as fixed by /repo commits c6905fd and 0ed8c5c.  Against the earlier code the model refuted all three
+   (findings F-C07a, F-C07b, F-C07d); their schedules are regression replays in corpus/C07. *)
+Theorem C07_connect_first : forall m0 l0 pipe0 nmsgs s,
   wire_ok (wire (sched_run s (init m0 l0 pipe0 nmsgs))) = true.
-Proof. exact connect_first_partial. Qed.
-Print Assumptions C07_connect_first_partial.
+Proof. exact connect_first. Qed.
+Print Assumptions C07_connect_first.
 
-(* (b) no internal error - FULL STATEMENT, FALSE (finding F-C07b: deque mutated during iteration) *)
-Definition C07_no_internal_error_full : Prop := no_internal_error_full.
+(* the loop thread has no failing step: the only configuration in which it cannot step is "parked in select()" *)
+Theorem C07_no_internal_error : forall m0 l0 pipe0 nmsgs s,
+  let c := sched_run s (init m0 l0 pipe0 nmsgs) in
+  tstep Loop c = None -> loop c = LSelect false /\ pipe c = O.
+Proof. exact loop_never_fails. Qed.
+Print Assumptions C07_no_internal_error.
 
-Theorem C07_no_internal_error_refuted :
-  crashed (sched_run witness_b (init_reconnect 0 [1%nat])) = true /\
-  sched_skipped witness_b (init_reconnect 0 [1%nat]) = O.
-Proof. exact no_internal_error_refuted. Qed.
-Print Assumptions C07_no_internal_error_refuted.
-
-Theorem C07_no_internal_error_full_is_false : ~ C07_no_internal_error_full.
-Proof. exact no_internal_error_full_false. Qed.
-Print Assumptions C07_no_internal_error_full_is_false.
-
-Theorem C07_no_internal_error_partial : forall m0 l0 pipe0 nmsgs s,
-  (forall ver k, l0 <> RIter ver k) ->
-  safe_run race_b s (init m0 l0 pipe0 nmsgs) = true ->
-  crashed (sched_run s (init m0 l0 pipe0 nmsgs)) = false.
-Proof. exact no_internal_error_partial. Qed.
-Print Assumptions C07_no_internal_error_partial.
-
-(* (d) exactly once or marked lost - FULL STATEMENT, FALSE (finding F-C07d: dropped by clear() unmarked) *)
-Definition C07_no_silent_loss_full : Prop := no_silent_loss_full.
-
-Theorem C07_no_silent_loss_refuted :
-  let c := sched_run witness_d (init_reconnect 0 [1%nat]) in
-  conserved c = false /\ out_packet c = [] /\ marked c = [] /\ wire c = [(1, Connect 1)] /\
-  sched_skipped witness_d (init_reconnect 0 [1%nat]) = O.
-Proof. exact no_silent_loss_refuted. Qed.
-Print Assumptions C07_no_silent_loss_refuted.
-
-Theorem C07_no_silent_loss_full_is_false : ~ C07_no_silent_loss_full.
-Proof. exact no_silent_loss_full_false. Qed.
-Print Assumptions C07_no_silent_loss_full_is_false.
-
-Theorem C07_no_silent_loss_partial : forall m0 l0 pipe0 nmsgs s, in_window_d l0 = false ->
-  safe_run race_d s (init m0 l0 pipe0 nmsgs) = true ->
+(* every packet a publisher appended is written, being written, queued, or was marked lost by reconnect() *)
+Theorem C07_no_silent_loss : forall m0 l0 pipe0 nmsgs s,
   conserved (sched_run s (init m0 l0 pipe0 nmsgs)) = true.
-Proof. exact no_silent_loss_partial. Qed.
-Print Assumptions C07_no_silent_loss_partial.
+Proof. exact no_silent_loss. Qed.
+Print Assumptions C07_no_silent_loss.
 
 (* ------------------------------------------------------------------ non-vacuity *)
 (* two publishers, ids wrap at 65535 while they interleave inside _mid_generate's critical section attempts;
@@ -236,17 +194,21 @@ Example C07_nonvacuous_steady :
   all_done c = true /\ out_packet c = [] /\ timeouts c = 1%nat /\ sched_skipped s c0 = 2%nat.
 Proof. vm_compute. repeat split; reflexivity. Qed.
 
-(* the exclusions of the partial theorems are satisfiable by schedules in which a publisher and reconnect()
-   really overlap *)
-Example C07_nonvacuous_exclusions :
-  let s := [Pub 0; Loop; Pub 0; Loop; Loop; Pub 0; Loop; Pub 0; Pub 0; Pub 0; Loop; Loop; Pub 0; Loop; Loop; Loop;
-            Loop; Loop; Loop; Pub 0; Pub 0; Pub 0; Pub 0; Pub 0; Pub 0; Pub 0; Pub 0; Pub 0; Pub 0; Loop; Loop; Loop;
-            Loop; Loop; Loop; Loop; Loop] in
-  let c0 := init_reconnect 0 [2%nat] in
-  safe_run race_a s c0 && safe_run race_b s c0 && safe_run race_d s c0 = true /\
-  wire (sched_run s c0) = [(1, Connect 1); (2, Connect 2); (2, Publish 0 0 1)] /\
-  map results (pubs (sched_run s c0)) = [[(0%nat, 1, true)]] /\ sched_skipped s c0 = O.
-Proof. exact exclusions_nonvacuous. Qed.
+(* the interleavings that refuted the earlier code (publisher passes the `_sock` test and appends while the loop
+   thread is inside reconnect()) now satisfy the statements, and a packet drained by reconnect() is marked *)
+Example C07_nonvacuous_reconnect :
+  let a := sched_run old_a (init_reconnect 0 [1%nat]) in
+  let b := sched_run old_bd (init_reconnect 0 [1%nat]) in
+  wire a = [(1, Connect 1); (2, Connect 2); (2, Publish 0 0 1)] /\ wire_ok (wire a) = true /\
+  sched_skipped old_a (init_reconnect 0 [1%nat]) = O /\
+  wire b = [(1, Connect 1); (2, Connect 2); (2, Publish 0 0 1)] /\ conserved b = true /\ marked b = [].
+Proof. exact old_witnesses_now_hold. Qed.
+
+Example C07_nonvacuous_marked :
+  let s := repeat (Pub 0) 8 ++ repeat Loop 12 in
+  let c := sched_run s (init_reconnect 0 [1%nat]) in
+  marked c = [Publish 0 0 1] /\ wire c = [(1, Connect 1); (2, Connect 2)] /\ conserved c = true.
+Proof. exact drained_packet_is_marked. Qed.
 
 Example C07_lock_edges :
   dedup client_edges = [(L_incb, L_cb); (L_out, L_incb); (L_out, L_cond); (L_out, L_time); (L_out, L_cb)].
